@@ -69,8 +69,8 @@ theorem unrel_child {sn tn : List Name} (h1 : ¬ sn <+: tn) (h2 : ¬ tn <+: sn) 
 /-! ## Shape of the walk -/
 
 /-- the walk over a plain source designating a copyable subtree emits exactly `opsOf` -/
-theorem walk_shape (fs : Fs) (c : Cfg) (hd : c.dereference = false) (hn : c.noClobber = false)
-    (sn0 tn0 : List Name) :
+theorem walk_shape (fs : Fs) (c : Cfg) (hd : c.dereference = false) (sn0 tn0 : List Name)
+    (hn : c.noClobber = false ∨ ∀ rel, fs.lexists (relJoin (plainPath tn0) rel) = false) :
     ∀ (d : Nat) (n : Node), n.Copyable d → ∀ (rel : List Name) (anc : List (List Name)),
       fs.root.getAt (sn0 ++ rel) = some n → (n.isLink = true → rel ≠ []) → sn0.length + rel.length + d < 256 →
       walkEntry fs c none (plainPath sn0) (plainPath tn0) (d + 1) rel anc = opsOf n (sn0 ++ rel) (tn0 ++ rel) := by
@@ -78,30 +78,32 @@ theorem walk_shape (fs : Fs) (c : Cfg) (hd : c.dereference = false) (hn : c.noCl
   induction d with
   | zero =>
     intro n hc rel anc hg hlk hlen
+    have hn' : c.noClobber = false ∨ fs.lexists (relJoin (plainPath tn0) rel) = false := hn.imp id (fun h => h rel)
     have hls := lstat_plain fs (sn0 ++ rel) n (by simp only [List.length_append]; omega) hg (noLinkAbove_of_getAt hg)
     rw [← relJoin_plain] at hls
     cases n with
-    | file k => rw [walkEntry_file fs c hd hn _ _ _ _ _ _ k hls]; simp [opsOf, relJoin_plain]
-    | link t => rw [walkEntry_link fs c hd hn _ _ _ _ _ _ t (hlk rfl) hls]; simp [opsOf, relJoin_plain]
+    | file k => rw [walkEntry_file fs c hd _ _ _ hn' _ _ _ k hls]; simp [opsOf, relJoin_plain]
+    | link t => rw [walkEntry_link fs c hd _ _ _ hn' _ _ _ t (hlk rfl) hls]; simp [opsOf, relJoin_plain]
     | special k dv =>
-      rw [walkEntry_special fs c hd hn _ _ _ _ _ _ k dv (by simpa [Node.Copyable] using hc) hls]
+      rw [walkEntry_special fs c hd _ _ _ hn' _ _ _ k dv (by simpa [Node.Copyable] using hc) hls]
       simp [opsOf, relJoin_plain]
     | dir es => simp [Node.Copyable] at hc
   | succ d ih =>
     intro n hc rel anc hg hlk hlen
+    have hn' : c.noClobber = false ∨ fs.lexists (relJoin (plainPath tn0) rel) = false := hn.imp id (fun h => h rel)
     have hls := lstat_plain fs (sn0 ++ rel) n (by simp only [List.length_append]; omega) hg (noLinkAbove_of_getAt hg)
     rw [← relJoin_plain] at hls
     cases n with
-    | file k => rw [walkEntry_file fs c hd hn _ _ _ _ _ _ k hls]; simp [opsOf, relJoin_plain]
-    | link t => rw [walkEntry_link fs c hd hn _ _ _ _ _ _ t (hlk rfl) hls]; simp [opsOf, relJoin_plain]
+    | file k => rw [walkEntry_file fs c hd _ _ _ hn' _ _ _ k hls]; simp [opsOf, relJoin_plain]
+    | link t => rw [walkEntry_link fs c hd _ _ _ hn' _ _ _ t (hlk rfl) hls]; simp [opsOf, relJoin_plain]
     | special k dv =>
-      rw [walkEntry_special fs c hd hn _ _ _ _ _ _ k dv (by simpa [Node.Copyable] using hc) hls]
+      rw [walkEntry_special fs c hd _ _ _ hn' _ _ _ k dv (by simpa [Node.Copyable] using hc) hls]
       simp [opsOf, relJoin_plain]
     | dir es =>
       obtain ⟨d', hd', hnd, hch⟩ := copyable_dir hc
       have hd'' : d' = d := by omega
       subst hd''
-      rw [walkEntry_dir fs c hd hn _ _ _ _ _ _ es es hls hg]
+      rw [walkEntry_dir fs c hd _ _ _ hn' _ _ _ es es hls hg]
       simp only [opsOf, relJoin_plain]
       congr 1
       -- the children, one by one
@@ -254,7 +256,7 @@ theorem mirror_fresh (fs : Fs) (c : Cfg) (hd : c.dereference = false) (hn : c.no
     simp only [List.length_append, List.length_cons, List.length_nil] at this
     omega
   -- the shape of the walk
-  have hshape := walk_shape fs c hd hn src.names tb.names fuel srcNode hcop [] []
+  have hshape := walk_shape fs c hd src.names tb.names (.inl hn) fuel srcNode hcop [] []
     (by simpa using hsn) (fun h => by rw [hnl] at h; cases h) (by simp only [List.length_nil]; omega)
   rw [← hsrcE, ← htbE] at hshape
   simp only [List.append_nil] at hshape
